@@ -19,14 +19,18 @@ func textAssumptions() []string {
 	}
 }
 
-// prepareTextShards builds one job per shard function VH_<prop>_<nn>.
-func prepareTextShards(ctx *Ctx, prop string, nshards int, reach []string, budget float64) *Prepared {
+// prepareTextShards builds the jobs for the per-case functions VH_<prop>_<nnn>
+// (one function per schema case, a few functions per job).
+func prepareTextShards(ctx *Ctx, prop string, ncases int, reach []string, budget float64) *Prepared {
 	hdir := filepath.Join(ctx.Verif, "harness")
 	p := &Prepared{Targets: map[string]*ReplayTarget{}, ExpectReach: map[string][]string{}}
-	for s := 0; s < nshards; s++ {
-		j := &Job{Name: fmt.Sprintf("%s-shard%02d", prop, s), Dir: hdir, Patterns: []string{"./text"},
-			Funcs: []string{fmt.Sprintf("vh/text.VH_%s_%02d", prop, s)},
-			Opt:   JobOptions{LoopBudget: 100000, AllocLimit: 1 << 22, TimeoutMs: 20000, EnumCap: 300, CheckRewrites: true, Witnesses: 2, FuncBudgetS: budget}}
+	const perJob = 3
+	for s := 0; s < ncases; s += perJob {
+		j := &Job{Name: fmt.Sprintf("%s-cases%03d", prop, s), Dir: hdir, Patterns: []string{"./text"},
+			Opt: JobOptions{LoopBudget: 100000, AllocLimit: 1 << 22, TimeoutMs: 20000, EnumCap: 300, CheckRewrites: true, Witnesses: 1, FuncBudgetS: budget}}
+		for k := s; k < s+perJob && k < ncases; k++ {
+			j.Funcs = append(j.Funcs, fmt.Sprintf("vh/text.VH_%s_%03d", prop, k))
+		}
 		p.Jobs = append(p.Jobs, j)
 		if len(reach) > 0 {
 			p.ExpectReach[j.Name] = reach
@@ -39,17 +43,20 @@ func prepareTextShards(ctx *Ctx, prop string, nshards int, reach []string, budge
 	return p
 }
 
+// textCases is the number of schema cases in harness/text (NCases there).
+const textCases = 143
+
 func textBudget(ctx *Ctx) float64 {
 	if ctx.Tier == "thorough" {
 		return 1800
 	}
-	return 100
+	return 150
 }
 
 func PrepareC11(ctx *Ctx) (*Prepared, error) {
-	p := prepareTextShards(ctx, "C11", 16, []string{"c11"}, textBudget(ctx))
+	p := prepareTextShards(ctx, "C11", textCases, []string{"c11"}, textBudget(ctx))
 	p.Bounds = map[string]interface{}{
-		"cases":   "130 schema ASTs: 30 single-construct schemas (enums over every base type, [flags], structs with every type-expression form, readonly, integer and 4-character opcodes, messages, unions, consts of every literal form, imports, go_package, doc comments and deprecations) + all 100 ordered pairs of 10 attributed definition kinds",
+		"cases":   "143 schema ASTs: 43 single-construct schemas (enums over every base type, [flags], structs with every type-expression form, readonly, integer and 4-character opcodes, messages, unions, consts of every literal form, imports, go_package, doc comments and deprecations) + all 100 ordered pairs of 10 attributed definition kinds",
 		"layouts": "LF / CRLF, space / tab indentation, one-line / multi-line; one separator byte symbolic over {space, tab}",
 		"outside": "schemas outside the case list; comment placements other than directly above a definition, field or option; more than one symbolic character per identifier",
 	}
@@ -58,14 +65,14 @@ func PrepareC11(ctx *Ctx) (*Prepared, error) {
 }
 
 func PrepareC16(ctx *Ctx) (*Prepared, error) {
-	p := prepareTextShards(ctx, "C16", 16, nil, textBudget(ctx))
+	p := prepareTextShards(ctx, "C16", textCases, nil, textBudget(ctx))
 	p.Bounds = map[string]interface{}{"cases": "the 130 schema ASTs of C11 restricted to texts ReadFile accepts, in the same layouts", "compared": "every File field except comments and comment-derived tags"}
 	p.Explanation = "bounded symbolic execution of bebop.Format followed by bebop.ReadFile on its output; the two Files must be equal up to comments"
 	return p, nil
 }
 
 func PrepareC17(ctx *Ctx) (*Prepared, error) {
-	p := prepareTextShards(ctx, "C17", 16, nil, textBudget(ctx))
+	p := prepareTextShards(ctx, "C17", textCases, nil, textBudget(ctx))
 	p.Bounds = map[string]interface{}{"cases": "the 130 schema ASTs of C11 restricted to texts ReadFile accepts and Format processes without error"}
 	p.Explanation = "bounded symbolic execution of bebop.Format applied twice; the two outputs are compared byte for byte (symbolic bytes included)"
 	return p, nil
